@@ -63,6 +63,9 @@ TResult ==
             /\ ~Cur.stuck /\ ~Cur.ok
             /\ Cur.code = (IF sc.text = "servercancel" THEN 1 ELSE 4)
             /\ (sc.text # "early" => Cur.hctx /\ Cur.got = sc.n)
+       \* C14 / C15: Do returns a response after the call's context was cancelled: its body is closed, nothing hangs,
+       \* and the call does not succeed with anything but canceled
+       [] sc.op = "late_response" -> ~Cur.stuck /\ Cur.closed /\ ~Cur.ok /\ Cur.code = 1
        [] sc.op = "client_init_fail" ->
             /\ Cur.reached = 0 /\ Len(Cur.codes) >= 8
             /\ IF sc.used = "badurl"
